@@ -25,6 +25,9 @@ class Prop(WalletProp):
             if hi is None:
                 hi = lo + 2
             cases.append({"kind": "Gen", "w": w, "account": accts[j % len(accts)], "lo": lo, "hi": hi})
+        # literal-directed: account numbers equal to the purpose numbers that appear in the source (44, 49, 84)
+        for j, acct in enumerate([44, 49, 84] if T else [44, 49]):
+            cases.append({"kind": "Gen", "w": self.rand_wspec(rng, j % 2 == 1), "account": acct, "lo": 0, "hi": 1})
         for testnet in (False, True):
             cases.append({"kind": "Was", "w": self.rand_wspec(rng, testnet)})
         return cases
